@@ -187,7 +187,8 @@ func (b *EndpointBuilder) populateFailoverPriorityLabels() {
 	}
 
 	enableFailover, lb := getOutlierDetectionAndLoadBalancerSettings(b.DestinationRule(), b.port, b.subsetName)
-	if !enableFailover {
+	if !enableFailover && b.push == nil {
+		// a bare builder used as a cache key: nothing to resolve the mesh-wide settings from
 		return
 	}
 	lbSettings := loadbalancer.GetEffectiveLbSetting(
@@ -197,6 +198,12 @@ func (b *EndpointBuilder) populateFailoverPriorityLabels() {
 		b.service,
 	)
 	if lbSettings == nil {
+		return
+	}
+	// Failover (and with it the label based priorities computed from the proxy's labels) is applied
+	// with outlier detection, or when the setting forces it (a service's traffic distribution,
+	// zone aware load balancing): see BuildClusterLoadAssignment.
+	if !enableFailover && !lbSettings.ForceFailover() {
 		return
 	}
 	failoverPriority := lbSettings.FailoverPriorityLabels()
